@@ -14,7 +14,7 @@ for p in props:
         subprocess.run(["git", "-C", "/repo", "worktree", "add", "-q", wt, "HEAD"], check=True)
     open(f"/tmp/prop{R}-{p}.txt", "w").write(json.dumps({k: P[p][k] for k in ("id", "title", "statement", "quantifier", "anchors")}, indent=1))
     used = []
-    for v in "abcdefgh":
+    for v in "abcdefghijklmnopqrstuvwxyz":
         f = f"/verif/seeded/{p}-{v}/meta.json"
         if os.path.exists(f):
             used.append(f"({v}) " + json.load(open(f))["summary"][:300].replace("\n", " "))
